@@ -55,7 +55,7 @@ class Harness:
         if cfg.has_limit:
             cfg.limit = z3.Int(name + '_limit'); ctx.add(z3.And(cfg.limit >= 1, cfg.limit <= (nmax if nmax is not None else n + 2), cfg.limit >= n))      # full and non-full caches
         if cfg.has_ttl:
-            cfg.ttl = RI(name + '_ttl'); ctx.add(z3.And(cfg.ttl >= 1, cfg.ttl <= 2 ** 32))
+            cfg.ttl = RI(name + '_ttl'); ctx.add(z3.And(cfg.ttl >= (0 if cfg.policy == 'TLRU' else 1), cfg.ttl <= 2 ** 32))       # ttl = 0 (TLRU): the age fraction divides by it
         if cfg.has_mem:
             cfg.mem = z3.Int(name + '_maxmem'); ctx.add(z3.And(cfg.mem >= 0, cfg.mem <= SIZE_MAX))
         # ---- clock
